@@ -134,7 +134,7 @@ Section Pieces.
   Qed.
 
   Lemma ok_get_dict : forall dec x, ok V (get_dict V dec x).
-  Proof. intros. unfold get_dict. repeat okstep. Qed.
+  Proof. intros. unfold get_dict, decode_text. repeat okstep. Qed.
 
   Lemma ok_class_for_type : forall R ty ver cat, ok V (class_for_type R ty ver cat).
   Proof. intros. unfold class_for_type. repeat okstep. Qed.
@@ -206,7 +206,7 @@ Section InitOk.
   Variable V : variant.
   Variable R : registry.
   Variable clean : cleaner.
-  Hypothesis Hclean : forall n v, ok V (clean n v).
+  Hypothesis Hclean : forall io n v, ok V (clean io n v).
 
   Lemma ok_scan_entries : forall m tl unreg, ok V (scan_entries V R m tl unreg).
   Proof.
@@ -228,7 +228,7 @@ Section InitOk.
   Lemma ok_check_ref : forall vr, ok V (check_ref vr).
   Proof. intros. unfold check_ref. repeat okstep. Qed.
 
-  Lemma ok_check_slot : forall kind vr s val, ok V (check_slot clean kind vr s val).
+  Lemma ok_check_slot : forall io kind vr s val, ok V (check_slot clean io kind vr s val).
   Proof.
     intros. unfold check_slot.
     destruct val.
@@ -237,10 +237,10 @@ Section InitOk.
       apply ok_seq; [apply Hclean|]. destruct kind; destruct (s_ref s); repeat okstep; apply ok_check_ref.
   Qed.
 
-  Lemma ok_prop_loop : forall kind vr defined assigned order present,
-    ok V (prop_loop clean kind vr defined assigned order present).
+  Lemma ok_prop_loop : forall io kind vr defined assigned order present,
+    ok V (prop_loop clean io kind vr defined assigned order present).
   Proof.
-    induction order as [|n rest IH]; intros; simpl; [apply ok_ret|].
+    intros io kind vr defined assigned. induction order as [|n rest IH]; intros; simpl; [apply ok_ret|].
     destruct (find_slot n defined); [|apply IH].
     apply ok_bind; [apply ok_check_slot|intros; apply IH].
   Qed.
@@ -264,9 +264,9 @@ Section InitOk.
     apply ok_seq; [apply ok_cons_one; exact Hh|apply IH; exact Hr].
   Qed.
 
-  Lemma ok_base_init : forall c ac kw vr, forallb cons_known (c_cons c) = true -> ok V (base_init V R clean c ac kw vr).
+  Lemma ok_base_init : forall c ac io kw vr, forallb cons_known (c_cons c) = true -> ok V (base_init V R clean c ac io kw vr).
   Proof.
-    intros c ac kw vr Hk. unfold base_init.
+    intros c ac io kw vr Hk. unfold base_init.
     apply ok_bind.
     { destruct (jlookup (us "custom_properties") kw) as [v|]; [|apply ok_ret].
       destruct v; repeat okstep. }
@@ -295,7 +295,7 @@ Section ParseOk.
   Variable R : registry.
   Variable clean : cleaner.
   Variable refuse : bool.
-  Hypothesis Hclean : forall n v, ok V (clean n v).
+  Hypothesis Hclean : forall io n v, ok V (clean io n v).
   Hypothesis HR : reg_known R = true.
 
   Lemma reg_known_parts :
@@ -310,9 +310,9 @@ Section ParseOk.
   Lemma ok_call_check : forall kw nonstr, ok V (call_check kw nonstr).
   Proof. intros. unfold call_check. repeat okstep. Qed.
 
-  Lemma ok_construct0 : forall c ac kw, cls_known c = true -> ok V (construct0 V R clean c ac kw).
+  Lemma ok_construct0 : forall c ac io kw, cls_known c = true -> ok V (construct0 V R clean c ac io kw).
   Proof.
-    intros c ac kw Hc. unfold cls_known in Hc. apply andb_true_iff in Hc. destruct Hc as [Hp Hk].
+    intros c ac io kw Hc. unfold cls_known in Hc. apply andb_true_iff in Hc. destruct Hc as [Hp Hk].
     unfold construct0. cbv zeta. rewrite Hp. simpl negb. cbv iota.
     apply ok_seq; [apply ok_base_init; assumption|].
     repeat okstep.
@@ -344,9 +344,9 @@ Section ParseOk.
     rewrite Hr, Hc2. reflexivity.
   Qed.
 
-  Lemma ok_construct : forall dec c ac kw, cls_known c = true -> ok V (construct V R clean dec c ac kw).
+  Lemma ok_construct : forall dec c ac io kw, cls_known c = true -> ok V (construct V R clean dec c ac io kw).
   Proof.
-    intros dec c ac kw Hc. unfold construct.
+    intros dec c ac io kw Hc. unfold construct.
     destruct (c_pre c) as [|p rest] eqn:Hp; [apply ok_construct0; exact Hc|].
     destruct p; try (apply ok_construct0; exact Hc);
       (apply ok_seq; [apply ok_marking_pre|apply ok_construct0; eapply cls_known_tail; eassumption]).
@@ -397,7 +397,7 @@ Section ParseOk.
   Lemma ok_refuse_custom : forall c ac kw, ok V (refuse_custom refuse c ac kw).
   Proof. intros. unfold refuse_custom. repeat okstep. Qed.
 
-  Lemma ok_dict_to_stix2 : forall dec d nonstr ac version, ok V (dict_to_stix2 V R clean refuse dec d nonstr ac version).
+  Lemma ok_dict_to_stix2 : forall dec d nonstr ac io version, ok V (dict_to_stix2 V R clean refuse dec d nonstr ac io version).
   Proof.
     intros. unfold dict_to_stix2.
     apply ok_bind; [apply ok_py_in|intros has].
@@ -423,10 +423,13 @@ Section ParseOk.
       apply ok_bind; [apply ok_d2s_scan|intros b]. destruct b; [apply ok_ret|apply ok_fail; reflexivity].
   Qed.
 
-  Lemma ok_parse : forall dec x ac version, ok V (parse V R clean refuse dec x ac version).
+  Lemma ok_parse : forall dec x ac io version, ok V (parse V R clean refuse dec x ac io version).
   Proof. intros. unfold parse. apply ok_bind; [apply ok_get_dict|intros; apply ok_dict_to_stix2]. Qed.
 
-  Lemma ok_parse_observable : forall dec x vr ac version, ok V (parse_observable V R clean refuse dec x vr ac version).
+  Lemma ok_parse_file : forall dec tr ac io version, ok V (parse_file V R clean refuse dec tr ac io version).
+  Proof. intros. unfold parse_file. apply ok_bind; [unfold decode_text; repeat okstep|intros; apply ok_dict_to_stix2]. Qed.
+
+  Lemma ok_parse_observable : forall dec x vr ac io version, ok V (parse_observable V R clean refuse dec x vr ac io version).
   Proof.
     intros. unfold parse_observable.
     apply ok_bind; [apply ok_get_dict|intros d].
@@ -447,16 +450,16 @@ End ParseOk.
 (* ------------------------------------------------------------------ *)
 (* the two cleaners                                                      *)
 
-Lemma ok_clean_any : forall V n v, ok V (clean_any n v).
+Lemma ok_clean_any : forall V io n v, ok V (clean_any io n v).
 Proof. intros. unfold clean_any. apply ok_may. repeat constructor. Qed.
 
 Lemma ok_clean_via : forall V (cl : blackbox),
-  (forall n v e, cl n v = CleanRaise e -> is_exception e = true) ->
-  forall n v, ok V (clean_via cl n v).
+  (forall io n v e, cl io n v = CleanRaise e -> is_exception e = true) ->
+  forall io n v, ok V (clean_via cl io n v).
 Proof.
-  intros V cl Hcl n v. unfold clean_via, lift.
-  destruct (cl n v) as [|e] eqn:E; [repeat constructor|].
-  destruct (wrapper_total_lemma e (Hcl _ _ _ E)) as [e' [He' Hs]]. rewrite He'.
+  intros V cl Hcl io n v. unfold clean_via, lift.
+  destruct (cl io n v) as [|e] eqn:E; [repeat constructor|].
+  destruct (wrapper_total_lemma e (Hcl _ _ _ _ E)) as [e' [He' Hs]]. rewrite He'.
   constructor; [left; apply subclass_trans_IVE_family; exact Hs|constructor].
 Qed.
 
@@ -487,8 +490,8 @@ Section StoreFacts.
 
   Lemma store_add_one_cases : forall st x version st' a,
     In (st', a) (store_add_one V R clean refuse dec st x version) ->
-    (a = Added /\ st' = (st ++ [x])%list /\ exists p, In (Val p) (parse V R clean refuse dec x true version)) \/
-    (exists e s, a = Escaped e s /\ st' = st /\ In (Exc e s) (parse V R clean refuse dec x true version)).
+    (a = Added /\ st' = (st ++ [x])%list /\ exists p, In (Val p) (parse V R clean refuse dec x true false version)) \/
+    (exists e s, a = Escaped e s /\ st' = st /\ In (Exc e s) (parse V R clean refuse dec x true false version)).
   Proof.
     intros st x version st' a Hin. unfold store_add_one in Hin. apply in_map_iff in Hin.
     destruct Hin as [r [Hr Hin]]. destruct r as [p|e s]; inversion Hr; subst.
@@ -499,10 +502,10 @@ Section StoreFacts.
   Lemma store_add_list_prefix : forall xs st version st' a,
     In (st', a) (store_add_list V R clean refuse dec st xs version) ->
     exists k, (k <= List.length xs)%nat /\ st' = (st ++ firstn k xs)%list /\
-              Forall (fun x => exists p, In (Val p) (parse V R clean refuse dec x true version)) (firstn k xs) /\
+              Forall (fun x => exists p, In (Val p) (parse V R clean refuse dec x true false version)) (firstn k xs) /\
               match a with
               | Added => k = List.length xs
-              | Escaped e s => exists x, nth_error xs k = Some x /\ In (Exc e s) (parse V R clean refuse dec x true version)
+              | Escaped e s => exists x, nth_error xs k = Some x /\ In (Exc e s) (parse V R clean refuse dec x true false version)
               end.
   Proof.
     induction xs as [|x r IH]; intros st version st' a Hin; simpl in Hin.
